@@ -25,11 +25,12 @@ def scratch(prefix="verif_"):
     return tempfile.mkdtemp(prefix=prefix)
 
 
-def run_mc(module, cfg, workers=16, timeout=900, extra=None, heap="8g", workdir=None, simulate=None, env=None):
+def run_mc(module, cfg, workers=16, timeout=900, extra=None, heap="8g", workdir=None, simulate=None, env=None, cwd=None):
     """Run a model-checking instance spec/<module>.tla with spec/<cfg>; returns a dict of statistics.
     Raises TLCError on a parse/semantic/evaluation error (machinery failure)."""
     own = workdir is None
     wd = workdir or scratch("verif_mc_")
+    os.makedirs(wd, exist_ok=True)
     try:
         cmd = _java(heap, parallel_gc=True) + ["-workers", str(workers), "-metadir", os.path.join(wd, "meta"),
                                                "-noGenerateSpecTE", "-coverage", "1", "-config", cfg]
@@ -43,7 +44,7 @@ def run_mc(module, cfg, workers=16, timeout=900, extra=None, heap="8g", workdir=
         if env:
             e.update(env)
         try:
-            p = subprocess.run(cmd, cwd=SPEC_DIR, capture_output=True, text=True, timeout=timeout, env=e)
+            p = subprocess.run(cmd, cwd=cwd or SPEC_DIR, capture_output=True, text=True, timeout=timeout, env=e)
             out = p.stdout + p.stderr
             rc = p.returncode
             timed_out = False
@@ -61,6 +62,22 @@ def run_mc(module, cfg, workers=16, timeout=900, extra=None, heap="8g", workdir=
     finally:
         if own:
             shutil.rmtree(wd, ignore_errors=True)
+
+
+def run_mc_generated(name, tla_text, cfg_text, **kw):
+    """Run a generated wrapper module (constants as TLA+ literals) next to the committed spec modules."""
+    wd = scratch("verif_gen_")
+    try:
+        for f in os.listdir(SPEC_DIR):
+            if f.endswith(".tla"):
+                os.symlink(os.path.join(SPEC_DIR, f), os.path.join(wd, f))
+        with open(os.path.join(wd, name + ".tla"), "w") as fh:
+            fh.write(tla_text)
+        with open(os.path.join(wd, name + ".cfg"), "w") as fh:
+            fh.write(cfg_text)
+        return run_mc(os.path.join(wd, name + ".tla"), os.path.join(wd, name + ".cfg"), workdir=os.path.join(wd, "w"), cwd=wd, **kw)
+    finally:
+        shutil.rmtree(wd, ignore_errors=True)
 
 
 def parse_mc_output(out):
@@ -85,7 +102,7 @@ def parse_mc_output(out):
         if not res["violated"]:
             res["fatal"] = True
     # coverage of actions:  <Action line ..., col ... of module M>: distinct:total
-    for m in re.finditer(r"<(\w+) line \d+, col \d+ to line \d+, col \d+ of module (\w+)>: (\d+):(\d+)", out):
+    for m in re.finditer(r"<(\w+) line \d+, col \d+ to line \d+, col \d+ of module (\w+)(?: \([\d ]+\))?>: (\d+):(\d+)", out):
         res["coverage"][m.group(1)] = res["coverage"].get(m.group(1), 0) + int(m.group(4))
     return res
 
